@@ -149,7 +149,11 @@ impl Arg for crate::track::Tz {
     fn arg_id(&self) -> i64 {
         0
     }
-    fn consume(self, _: bool) {}
+    /// the caller's function takes the value out of the accounting without running its destructor, so that every
+    /// destructor run that IS logged is the crate's
+    fn consume(self, _: bool) {
+        crate::track::zforget(self)
+    }
 }
 impl Arg for &crate::track::Tz {
     const OWNED: bool = false;
@@ -237,6 +241,58 @@ impl Arg for &mut u32 {
     }
     fn consume(self, _: bool) {}
 }
+
+/// Plain data whose SIZE (12) is not its ALIGNMENT (4): an index or offset derived from addresses with the wrong
+/// unit is wrong for it and right for every primitive scalar.
+#[derive(Debug, Default, Clone, Copy, PartialEq)]
+pub struct P3 {
+    pub a: u32,
+    pub b: u32,
+    pub c: u32,
+}
+/// Plain two-byte data: a zip of arrays whose element SIZES differ (2 x 4, 4 x 2, 12 x 4)
+#[derive(Debug, Default, Clone, Copy, PartialEq)]
+pub struct H2(pub u16);
+macro_rules! plain_elem {
+    ($T:ty, $mk:expr, $id:expr) => {
+        impl Elem for $T {
+            const TRACKED: bool = false;
+            fn make(id: i64) -> $T {
+                $mk(id)
+            }
+            fn fresh() -> $T {
+                $mk(<u32 as Elem>::fresh() as i64)
+            }
+            fn id(&self) -> i64 {
+                $id(self)
+            }
+            fn release(self) {}
+        }
+        impl Arg for $T {
+            const OWNED: bool = false;
+            fn arg_id(&self) -> i64 {
+                $id(self)
+            }
+            fn consume(self, _: bool) {}
+        }
+        impl Arg for &$T {
+            const OWNED: bool = false;
+            fn arg_id(&self) -> i64 {
+                $id(*self)
+            }
+            fn consume(self, _: bool) {}
+        }
+        impl Arg for &mut $T {
+            const OWNED: bool = false;
+            fn arg_id(&self) -> i64 {
+                $id(&**self)
+            }
+            fn consume(self, _: bool) {}
+        }
+    };
+}
+plain_elem!(P3, |id: i64| P3 { a: id as u32, b: !(id as u32), c: 0xC0FFEE }, |p: &P3| if p.b == !p.a && p.c == 0xC0FFEE { p.a as i64 } else { -1 });
+plain_elem!(H2, |id: i64| H2(id as u16), |h: &H2| h.0 as i64);
 
 #[derive(Default)]
 pub struct Rec {
@@ -657,7 +713,8 @@ where
     let mut rec = rec.into_inner();
     // drops performed by the closure itself (mode 1) are not the crate's
     let mut dropped = track::drops_sorted(&log);
-    // zero-sized drop-counted elements: every destructor run shows as identity 0
+    // zero-sized drop-counted elements: every destructor run shows as identity 0 (the caller's function forgets the
+    // zero-sized arguments it is handed, so every logged run is the crate's)
     dropped.extend(log.iter().filter(|e| matches!(e, track::Ev::ZDrop)).map(|_| 0i64));
     for id in &rec.closure_dropped {
         if let Some(pos) = dropped.iter().position(|d| d == id) {
@@ -720,9 +777,15 @@ where
         accounted.extend(&sources);
         accounted.sort();
         if created != accounted {
+            // which way: an identity accounted for twice (released twice / released and still handed out), or one
+            // that is nowhere (lost: leaked)
+            let twice: Vec<i64> = accounted.windows(2).filter(|w| w[0] == w[1]).map(|w| w[0]).collect();
+            let unknown: Vec<i64> = accounted.iter().copied().filter(|x| !created.contains(x)).collect();
+            let lost: Vec<i64> = created.iter().copied().filter(|x| !accounted.contains(x)).collect();
+            let kind = if !twice.is_empty() || !unknown.is_empty() { format!("released twice {:?} / unknown {:?}", twice, unknown) } else { format!("lost {:?}", lost) };
             oracle.push(format!(
-                "ownership not conserved: existed {:?}; dropped {:?} + handed to caller code {:?} + returned {:?} + still owned by borrowed inputs {:?}",
-                created, dropped, handed, out.result, sources
+                "ownership not conserved ({}): existed {:?}; dropped {:?} + handed to caller code {:?} + returned {:?} + still owned by borrowed inputs {:?}",
+                kind, created, dropped, handed, out.result, sources
             ));
         }
         if !out.ok && pan < 0 {
